@@ -876,8 +876,12 @@ def attach_tail_rule(ctx: Ctx) -> None:
     h, t = f.param_names()[:2]
     from .tables import Dec, closed_text, judge as tjudge, sums_of as tsums
     sums = tsums(ctx, f)
-    want = (f"buffer[buffer.index({h})] = NoteWithTail(beat={h}.beat, column={h}.column, note_type={h}.note_type, tail_beat={t}.beat, player={h}.player, keysound_index={h}.keysound_index)",)
-    decs = [Dec(dict(s_.plain_assign()), tuple(closed_text(s_, e, keep=[h, t, "buffer"]) for e in s_.effects if e.kind in ("store", "aug", "delete", "expr")), s_) for s_ in sums]
+    # the buffer: the deque of the enclosing group_notes
+    g = p.func("simfile.notes.group:group_notes")
+    bufs = [n for n, bs in locals_of(g).b.items() for b in bs if b.kind == "assign" and isinstance(b.value, ast.Call) and callee_name(ctx, g, b.value).endswith("deque")]
+    buffer = one(bufs, "the deque buffer of group_notes")
+    want = (f"{buffer}[{buffer}.index({h})] = NoteWithTail(beat={h}.beat, column={h}.column, note_type={h}.note_type, tail_beat={t}.beat, player={h}.player, keysound_index={h}.keysound_index)",)
+    decs = [Dec(dict(s_.plain_assign()), tuple(closed_text(s_, e, keep=[h, t, buffer]) for e in s_.effects if e.kind in ("store", "aug", "delete", "expr")), s_) for s_ in sums]
     tjudge(ctx, "R-REBUILD", f, "the head's slot in the buffer (found by searching the buffer for the head) is replaced by the joined note carrying the head's fields and the tail's beat", decs, [],
            lambda a: want, why="a remembered position goes stale when notes leave or are removed from the buffer; the joined note must be emitted at the head's position, once")
 
